@@ -462,3 +462,38 @@ func PadArrays(g uint16, vals []ref.Val) []ref.Val {
 	}
 	return out
 }
+
+// HasOverlong reports whether a content holds a string longer than its field or an array longer
+// than the profile length (values that cannot travel in full).
+func HasOverlong(c *Content) bool {
+	if c == nil {
+		return false
+	}
+	prof := Profile()
+	over := func(g uint16, vals []ref.Val) bool {
+		for _, pf := range prof.ByMesg[g] {
+			if pf.Sindex >= len(vals) {
+				continue
+			}
+			v := vals[pf.Sindex]
+			if v.K == 's' && !pf.Array && len(v.S) > int(pf.Length)-1 {
+				return true
+			}
+			if v.K == 'a' && pf.Array && len(v.A) > int(pf.Length) {
+				return true
+			}
+		}
+		return false
+	}
+	if over(0, c.FileId) {
+		return true
+	}
+	for _, s := range c.Slots {
+		for _, m := range s.Msgs {
+			if over(s.Global, m) {
+				return true
+			}
+		}
+	}
+	return false
+}
